@@ -41,6 +41,10 @@ def one(R, B, name, r, c, W, all_forms=True, huge=False, light=False):
         forms = [('bytes', b), ('hex', b.hex()), ('base64', base64.b64encode(b).decode())]
         if not all_forms:
             forms = [forms[oi % 3]]
+        elif len(b) < 20000:
+            # the raw bytes in the other containers a caller may hold them in
+            import array as _array
+            forms += [('bytearray', bytearray(b)), ('memoryview', memoryview(b)), ('memoryview-of-slice', memoryview(b'\x00' + b + b'\xff')[1:-1]), ('array-B', _array.array('B', b))]
         for fname, data in forms:
             entries = [('Cell.one_from_boc', lambda d: B.Cell.one_from_boc(d)),
                        ('Cell.from_boc', lambda d: B.Cell.from_boc(d)[0]),
